@@ -54,4 +54,16 @@ def allFindings (i : ScanIn) : List (Option Finding) :=
 
 def ConsistentAll (i : ScanIn) : Prop := Consistent (allFindings i)
 
+/-- SPECIFICATION of the gate in front of the three phases: plugins run only if every required extractor could be enabled, every
+plugin's requirements are met, there is a scan root, and specific files are asked for with one root only -/
+def Runs (enableOK validOK : Bool) (nroots : Nat) (paths : Bool) : Prop :=
+  enableOK = true ∧ validOK = true ∧ 0 < nroots ∧ (paths = true → nroots = 1)
+
+def runsB (enableOK validOK : Bool) (nroots : Nat) (paths : Bool) : Bool :=
+  enableOK && validOK && decide (0 < nroots) && (!paths || decide (nroots = 1))
+
+/-- the reason reported: the FIRST unmet condition, in the order enable, requirements, roots, files -/
+def specReason (enableOK validOK : Bool) (nroots : Nat) (paths : Bool) : Option PreErr :=
+  ([(!enableOK, PreErr.enable), (!validOK, .invalid), (nroots == 0, .noRoot), (paths && nroots != 1, .severalRoots)].find? (·.1)).map (·.2)
+
 end Scalibr.Detector
